@@ -28,7 +28,7 @@ REACH = [("yamlpath/common/keywordsearches.py", "has_child,_has_concrete_child",
          ("yamlpath/common/keywordsearches.py", "parent", "parent"),
          ("yamlpath/common/keywordsearches.py", "distinct,unique,_track_seen_value", "distinct/unique")]
 SIZES = {"quick": 400000, "thorough": 4000000}
-REQUIRED_COUNTERS = ["minmax_checked", "unique_distinct_checked", "has_child_checked", "parent_checked", "name_checked", "chain_checked", "wildcard_parent_checked"]
+REQUIRED_COUNTERS = ["minmax_checked", "unique_distinct_checked", "has_child_checked", "parent_checked", "name_checked", "chain_checked", "wildcard_parent_checked", "collector_parent_name_checked"]
 
 WORDS = ["apple", "bob", "cat", "dog", "emu", "fig"]
 
@@ -83,6 +83,15 @@ def gen_scalars(rng):
     else:
         vals = [rng.choice(WORDS) for _ in range(n)]
         txt = list(vals)
+    # the same value in another spelling (ruamel gives each spelling its own Python class)
+    for i in range(n):
+        if rng.random() < 0.2:
+            if kind == "int" and vals[i] >= 0:
+                txt[i] = rng.choice([hex(vals[i]), "0o%o" % vals[i], "&s%d %d" % (i, vals[i])])
+            elif kind == "str":
+                txt[i] = rng.choice(['"%s"' % vals[i], "'%s'" % vals[i], "&s%d %s" % (i, vals[i])])
+            elif kind == "float":
+                txt[i] = "&s%d %r" % (i, vals[i])
     # sprinkle nulls
     for i in range(n):
         if rng.random() < 0.12:
@@ -154,7 +163,14 @@ def check_records(ctx, rng):
                 v = rng.choice([-2.5, -0.5, 0.0, 0.0, 1.5, 1.5, 3.25])
             else:
                 v = rng.choice(WORDS[:4] + [""])
-            recs.append("{v: %s, w: %d}" % (repr(v) if kind != "int" else v, i))
+            vtxt = repr(v) if kind != "int" else str(v)
+            if rng.random() < 0.2:
+                # the same value spelled differently
+                if kind == "int" and v >= 0:
+                    vtxt = rng.choice([hex(v), "&r%d %d" % (i, v)])
+                elif kind == "str" and v:
+                    vtxt = rng.choice(['"%s"' % v, v, "&r%d %s" % (i, v)])
+            recs.append("{v: %s, w: %d}" % (vtxt, i))
             vals.append(v)
     shape = rng.choice(["aoh", "aoh", "hoh"])
     if shape == "aoh":
@@ -204,6 +220,20 @@ def check_records(ctx, rng):
                 if got[0] != "OK" or len(got[1]) != len(members) or any(r.node is not want_node for r in got[1]):
                     ctx.violation("%s-then-parent/wrong-ancestor" % kw, {"case": case, "summary": "%d members; got %r" % (
                         len(members), got[1] if got[0] != "OK" else [repr(r.node)[:40] for r in got[1]])})
+    # name() of each member reached as: collected by a wildcard, descended into, climbed back (buffered results must
+    # each keep their own coordinates)
+    if n >= 2:
+        q = "(recs.*).w[parent()][name()]"
+        ctx.evaluations += 1
+        ctx.counters["collector_parent_name_checked"] = ctx.counters.get("collector_parent_name_checked", 0) + 1
+        got = run(data, q)
+        if got[0] == "CRASH":
+            ctx.count("crash_handed_to_C15")
+        else:
+            names = [NodeCoords.unwrap_node_coords(r) for r in got[1]] if got[0] == "OK" else got[1]
+            if got[0] != "OK" or [str(x) for x in names] != [str(r) for r in refs]:
+                ctx.violation("collector-child-parent-name/%s" % shape, {"case": {"doc": doc, "query": q},
+                              "summary": "names %r ; the members are held under %r" % (names, refs)})
     present = [i for i, v in enumerate(vals) if v != "ABSENT"]
     cnt = Counter(repr(vals[i]) for i in present)
     uniq = [i for i in present if cnt[repr(vals[i])] == 1]
